@@ -247,6 +247,8 @@ def run(src, tier, seed):
     res.samples = [{'entry': 'main', 'escape_set': sorted(E.esc[main['id']])}, {'entry': 'Interpret::interp', 'escape_set': sorted(E.esc[interp['id']])}]
     res.extra['units'] = fx.stats['units']
     res.extra['functions'] = len(fx.F)
+    import fmtrule
+    fmtrule.format_rule(fx, res)
     return res
 
 
